@@ -43,8 +43,13 @@ pub trait ExtractAttribute {
         let will_fwd_any = self.forward_attrs().will_forward_any();
 
         if !(will_parse_any || will_fwd_any) {
+            // No attribute will be looked at, but a field that receives forwarded
+            // attributes still has to be given its (empty) value.
+            let fwd_population = self.forward_attrs().as_value_populator();
+
             return quote! {
                 #declarations
+                #fwd_population
             };
         }
 
